@@ -370,8 +370,47 @@ func (s *Server) Start(ctx context.Context) error {
 	)
 
 	go s.receiveLoop(ctx)
+	go s.leaseCleanup(ctx)
 
 	return nil
+}
+
+// leaseCleanup periodically removes leases whose valid lifetime has run out
+func (s *Server) leaseCleanup(ctx context.Context) {
+	ticker := time.NewTicker(time.Minute)
+	defer ticker.Stop()
+
+	for {
+		select {
+		case <-ctx.Done():
+			return
+		case <-ticker.C:
+			s.cleanupExpiredLeases()
+		}
+	}
+}
+
+// cleanupExpiredLeases releases the address and prefix of every lease whose
+// valid lifetime has expired without a renewal.
+func (s *Server) cleanupExpiredLeases() {
+	now := time.Now()
+	ctx := context.Background()
+
+	s.leasesMu.Lock()
+	defer s.leasesMu.Unlock()
+
+	for duid, lease := range s.leases {
+		if lease.ValidEnd.IsZero() || !now.After(lease.ValidEnd) {
+			continue
+		}
+		if lease.Address != nil {
+			s.releaseAddress(ctx, duid)
+		}
+		if lease.Prefix != nil {
+			s.releasePrefix(ctx, duid)
+		}
+		delete(s.leases, duid)
+	}
 }
 
 // Stop stops the DHCPv6 server
@@ -621,10 +660,8 @@ func (s *Server) handleRenew(msg *Message, addr *net.UDPAddr) {
 	// Extend lease
 	s.leasesMu.Lock()
 	lease.LastRenew = time.Now()
-	if s.addressPool != nil {
-		lease.PreferredEnd = time.Now().Add(time.Duration(s.addressPool.preferredLifetime) * time.Second)
-		lease.ValidEnd = time.Now().Add(time.Duration(s.addressPool.validLifetime) * time.Second)
-	}
+	lease.PreferredEnd = time.Now().Add(time.Duration(s.getPreferredLifetime()) * time.Second)
+	lease.ValidEnd = time.Now().Add(time.Duration(s.getValidLifetime()) * time.Second)
 	s.leasesMu.Unlock()
 
 	response := s.buildReply(msg, clientDUID, addr.IP)
@@ -916,6 +953,8 @@ func (s *Server) buildReply(msg *Message, clientDUID string, clientAddr net.IP) 
 
 				s.leasesMu.Lock()
 				lease.Prefix = prefix
+				lease.PreferredEnd = time.Now().Add(time.Duration(preferred) * time.Second)
+				lease.ValidEnd = time.Now().Add(time.Duration(valid) * time.Second)
 				s.leasesMu.Unlock()
 
 				prefixLen, _ := prefix.Mask.Size()
